@@ -40,7 +40,9 @@ func rwFull() []string {
 		// parameter maps: same size with different keys, empty values, same map written in another order
 		"NOERROR;HTTPS;1 . alpn=h3 no-default-alpn=", "NOERROR;HTTPS;1 . alpn=h3 port=8443", "NOERROR;HTTPS;1 . port=8443 alpn=h3",
 		"NOERROR;HTTPS;1 . alpn=h3 ech=", "NOERROR;HTTPS;1 . alpn= port=8443", "NOERROR;SVCB;1 . alpn=h3", "NOERROR;HTTPS;2 . alpn=h3",
-		"NOERROR;SRV;1 2 81 s.org", "NOERROR;SRV;1 3 80 s.org", "NOERROR;MX;10 n.org", "NOERROR;TXT;", "NOERROR;AAAA;::1", "NOERROR;A;1.2.3.5"}
+		"NOERROR;SRV;1 2 81 s.org", "NOERROR;SRV;1 3 80 s.org", "NOERROR;MX;10 n.org", "NOERROR;TXT;", "NOERROR;AAAA;::1", "NOERROR;A;1.2.3.5",
+		// every response code the full form accepts, not only the three keyword codes
+		"NOTIMP;;", "FORMERR;;", "YXDOMAIN;;", "NOTAUTH;;", "SERVFAIL;;", "SERVFAIL"}
 	var out []string
 	for _, v := range vals {
 		for _, exc := range []bool{false, true} {
